@@ -20,7 +20,10 @@ SEED_CHECKS = {'C01-a': ['C01', 'C12'], 'C12-a': ['C12'], 'C13-a': ['C13'], 'C05
                'C15-c': ['C15'], 'C17-c': ['C17'], 'C18-c': ['C18', 'C08'], 'C10-c': ['C10'],
                'C01-d': ['C01', 'C11'], 'C02-d': ['C02'], 'C03-d': ['C03'], 'C04-d': ['C04'], 'C05-d': ['C05', 'C10'], 'C06-d': ['C06'], 'C07-d': ['C07'],
                'C08-d': ['C08'], 'C09-d': ['C09'], 'C10-d': ['C10', 'C09'], 'C11-d': ['C11'], 'C12-d': ['C12'], 'C13-d': ['C13'], 'C15-d': ['C15', 'C16'],
-               'C16-b': ['C16'], 'C17-d': ['C17'], 'C18-d': ['C18', 'C15']}
+               'C16-b': ['C16'], 'C17-d': ['C17'], 'C18-d': ['C18', 'C15'],
+               'C01-e': ['C01', 'C13'], 'C02-e': ['C02'], 'C03-e': ['C03'], 'C04-e': ['C04'], 'C05-e': ['C05'], 'C06-e': ['C06'], 'C07-e': ['C07', 'C16'],
+               'C08-e': ['C08', 'C03'], 'C09-e': ['C09', 'C02'], 'C10-e': ['C10'], 'C11-e': ['C11'], 'C12-e': ['C12'], 'C13-e': ['C13'], 'C15-e': ['C15', 'C18'],
+               'C16-c': ['C16'], 'C17-e': ['C17', 'C02'], 'C18-e': ['C18', 'C05']}
 
 
 def run(pid):
